@@ -150,6 +150,17 @@ def main():
         else: a = a[1:]
     ms = gen(unit, files or UNITS[unit]["files"])
     ms = ms[::every]
+    # the registry table (suite_rfc6287.go from `var knownSuites`) is a long literal whose entries are each covered by a
+    # ground table obligation: sample every 8th mutant there
+    tbl = next((i for i, l in enumerate(open(os.path.join(REPO, "suite_rfc6287.go")).read().split("\n")) if l.startswith("var knownSuites")), 10**9)
+    keep, k = [], 0
+    for m in ms:
+        if m[0] == "suite_rfc6287.go" and m[1] >= tbl:
+            k += 1
+            if k % 8:
+                continue
+        keep.append(m)
+    ms = keep
     if limit:
         ms = ms[:limit]
     print(f"{len(ms)} mutants for unit {unit}", flush=True)
